@@ -21,8 +21,11 @@ live collection).  Proved here is the protocol argument:
   (C02's theorem, any history of any length, automatic snapshots, rotation and compaction
   included), and `C09_stale_snapshot_never_replaces_newer`: the MANIFEST's snapshot sequence never
   decreases along a history.
+* the MANIFEST as a cell shared by rotation and snapshot commit: `Theorems/C09Manifest.lean`
+  (`C09_manifest_rmw_under_the_lock_is_sequential`, `C09_manifest_rmw_outside_the_lock_loses_the_commit`).
 -/
 import KyroModel.Theorems.C02
+import KyroModel.Theorems.C09Manifest
 
 namespace KyroModel.C09
 open KyroModel
